@@ -177,9 +177,21 @@ impl Vm {
                     self.pc += 1;
                     break;
                 }
-                // TODO: compute gas_spent is not inferrable above
+                // The gas spent by compute programs is only known once they have run,
+                // so it is checked against the total limit here.
                 Some(ProgramControlFlow::ComputeResult((pc, gas, halt))) => {
-                    gas_spent += gas;
+                    gas_spent = gas_spent
+                        .checked_add(gas)
+                        .filter(|&spent| spent <= gas_limit.total)
+                        .ok_or(ExecError(
+                            self.pc,
+                            OutOfGasError {
+                                spent: gas_spent,
+                                op_gas: gas,
+                                limit: gas_limit.total,
+                            }
+                            .into(),
+                        ))?;
                     self.pc = pc;
                     self.halt |= halt;
                     if self.halt {
